@@ -136,6 +136,11 @@ def check_history(case, ctx: Ctx):
         if name == "fill":
             flat, pt = cell_index(op[1])
             w = op[2]
+            if w is not None and len(op) > 3 and op[3]:
+                # the weight as a numpy scalar of another width (as when looping over a float32 / int16 weights array)
+                w = {"np_float32": np.float32, "np_float16": np.float16, "np_float64": np.float64, "np_longdouble": np.longdouble,
+                     "np_int32": np.int32, "np_int16": np.int16}[op[3]](w) if not (op[3].startswith("np_int") and not float(w).is_integer()) else w
+                ctx.label("fill_weight_" + type(w).__name__)
             if w is None:
                 ctx.call(what, h.fill, pt)
                 wv = Fraction(1)
@@ -144,7 +149,7 @@ def check_history(case, ctx: Ctx):
                 wv = Fx(w)
             m.freq[flat] += wv
             m.err2[flat] += wv * wv
-            if w is None or isinstance(w, int):
+            if w is None or isinstance(w, (int, np.integer)):
                 if before_dtype.kind == "i":
                     require(h.dtype.kind == "i", "unweighted_fill_left_integer_types", f"{what}: {before_dtype} -> {h.dtype}")
                 kinds.add("fill_int")
@@ -369,7 +374,8 @@ def one_op(draw):
         return [name, draw(st.sampled_from(DTYPES[:6])), draw(st.integers(-4, 6)), draw(st.booleans())]
     ts = st.lists(st.floats(0, 0.999), min_size=2, max_size=2)
     if name == "fill":
-        return [name, draw(ts), draw(st.sampled_from([None, None, 1, 2, 0.5, 1.5, 2.0, 0.25]))]
+        return [name, draw(ts), draw(st.sampled_from([None, None, 1, 2, 0.5, 1.5, 2.0, 0.25])),
+                draw(st.sampled_from([None, None, "np_float32", "np_float16", "np_float64", "np_longdouble", "np_int32", "np_int16"]))]
     if name == "fill_n":
         return [name, draw(st.lists(ts, max_size=4)), draw(st.sampled_from(["none", "int", "float"]))]
     if name in ("add", "iadd", "sub", "isub"):
